@@ -27,10 +27,17 @@ def report(ctx: Ctx, sa: SiteAnalysis, cats: dict[str, str], site_cats: dict[str
     """cats: outcome category -> rule name;  site_cats: site-level category -> rule name."""
     for fn in sa.hooks.all_hook_functions():
         ctx.fn(f"_hooks.py:{fn.hook_name}")
+    by_site: dict = {}
     for s, cat, msg in sa.site_issues:
-        if cat in site_cats:
-            ctx.fail(site_cats[cat], f"site={show(s.ty)}", f"{msg} (first use: {s.origins[0]})",
-                     P_HOOKS, None, {"origins": s.origins[:10], "category": cat})
+        by_site.setdefault(id(s), []).append((cat, msg))
+    for s in sa.sites.values():
+        for rule in sorted(set(site_cats.values())):
+            rel = [(c, m) for c, m in by_site.get(id(s), []) if site_cats.get(c) == rule]
+            if not rel:
+                ctx.ok(rule, {"site": show(s.ty), "handler": s.handler_kind, "first_use": s.origins[0]})
+            for c, m in rel:
+                ctx.fail(rule, f"site={show(s.ty)}", f"{m} (first use: {s.origins[0]})",
+                         P_HOOKS, None, {"origins": s.origins[:10], "category": c})
     for o in sa.outcomes:
         mine = [(c, m) for c, m in o.issues if c in cats]
         for rule in sorted(set(cats.values())):
